@@ -188,7 +188,11 @@ def C13(tier):
             obs.append([law, {'p': p}])
             if p >= 2 and law in ('g0_cmp', 'g0_arith', 'g0_ops'):
                 obs.append([law, {'p': p, 'd': p - 2}])
-    r = _leaf(obs, GUARD_FUNCS + FIXED_FUNCS, require=list(laws.GUARDED_LAWS))
+    # printing with zero guard digits: both printed forms denote the same half-up rounding of the same stored value
+    for p, d in ([(2, 0), (3, 1), (4, 2), (4, 4)] if tier != 'thorough' else [(1, 0), (2, 0), (2, 1), (3, 1), (4, 2), (4, 4), (6, 3), (9, 4)]):
+        obs.append(['str_guarded', {'p': p, 'g': 0, 'd': d}])
+        obs.append(['str_fixed', {'p': p, 'd': d}])
+    r = _leaf(obs, GUARD_FUNCS + FIXED_FUNCS + ['values/guarded.py:Guarded.__str__', 'values/fixed.py:Fixed.__str__'], require=list(laws.GUARDED_LAWS) + ['str_guarded', 'str_fixed'])
     r['bounds'] = dict(precisions=ps, guards=gs, operands='unbounded')
     quick = tier != 'thorough'
     # (b) guard = 0 behaves like fixed in every count
